@@ -36,7 +36,7 @@ const (
 // ---------------------------------------------------------------- bit lists
 
 // sixes packs a bit list whose length is a multiple of 6 into bytes + 63.
-func sixes(bits []int) []byte {
+func sixes(bits []uint8) []byte {
 	if len(bits)%6 != 0 {
 		panic("codec: bit list not a multiple of 6")
 	}
@@ -44,7 +44,7 @@ func sixes(bits []int) []byte {
 	for i := 0; i < len(bits); i += 6 {
 		v := 0
 		for j := 0; j < 6; j++ {
-			v = v*2 + bits[i+j]
+			v = v*2 + int(bits[i+j])
 		}
 		out = append(out, byte(v+63))
 	}
@@ -52,23 +52,23 @@ func sixes(bits []int) []byte {
 }
 
 // unsixes expands bytes (each must be in 63..126) into a bit list.
-func unsixes(b []byte) ([]int, error) {
-	bits := make([]int, 0, 6*len(b))
+func unsixes(b []byte) ([]uint8, error) {
+	bits := make([]uint8, 0, 6*len(b))
 	for i, c := range b {
 		if c < 63 || c > 126 {
 			return nil, fmt.Errorf("byte %d at offset %d outside 63..126", c, i)
 		}
 		v := int(c) - 63
 		for j := 5; j >= 0; j-- {
-			bits = append(bits, (v>>uint(j))&1)
+			bits = append(bits, uint8((v>>uint(j))&1))
 		}
 	}
 	return bits, nil
 }
 
-func appendNumber(bits []int, x, width int) []int {
+func appendNumber(bits []uint8, x, width int) []uint8 {
 	for j := width - 1; j >= 0; j-- {
-		bits = append(bits, (x>>uint(j))&1)
+		bits = append(bits, uint8((x>>uint(j))&1))
 	}
 	return bits
 }
@@ -139,7 +139,7 @@ func ParseSize(b []byte) (n uint64, used int, ok bool) {
 // Graph6 returns the graph6 string of g (without header).
 func Graph6(g *rg.G) string {
 	n := g.N
-	bits := make([]int, 0, n*(n-1)/2+5)
+	bits := make([]uint8, 0, n*(n-1)/2+5)
 	for j := 1; j < n; j++ {
 		for i := 0; i < j; i++ {
 			if g.Has(i, j) {
@@ -227,7 +227,7 @@ func NormEdges(edges [][2]int) [][2]int {
 
 // padSparse6 applies the two padding rules of formats.txt to a pair stream.
 // hasEdge(v) tells whether vertex v is an end of some edge.
-func padSparse6(bits []int, n, k int, hasEdge func(v int) bool) []int {
+func padSparse6(bits []uint8, n, k int, hasEdge func(v int) bool) []uint8 {
 	pad := (6 - len(bits)%6) % 6
 	if pad == 0 {
 		return bits
@@ -252,7 +252,7 @@ func Sparse6(n int, edges [][2]int) string {
 	k := BitsFor(n)
 	e := NormEdges(edges)
 	touched := map[int]bool{}
-	var bits []int
+	var bits []uint8
 	cur := 0
 	for _, p := range e {
 		u, v := p[0], p[1]
@@ -290,7 +290,7 @@ func Sparse6OfGraph(g *rg.G) string { return Sparse6(g.N, g.Edges()) }
 func Sparse6Alt(n int, edges [][2]int, pick func(m int) int) string {
 	k := BitsFor(n)
 	e := NormEdges(edges)
-	var bits []int
+	var bits []uint8
 	cur := 0
 	for i := 0; i < len(e); {
 		v := e[i][1]
